@@ -243,4 +243,144 @@ Proof.
 Qed.
 
 
+(* ---------- an accepted program meets the precondition of C16 -------------------------- *)
+
+Lemma present_global_ok t cur v :
+  nofunc P t -> present t (scope_key P cur v) -> global_ok P cur v = true.
+Proof.
+  intros Hn Hp. destruct (scope_key_cases P cur v) as [[Hc [Hv _]]|[_ E]].
+  - apply global_ok_param; assumption.
+  - rewrite E in Hp. unfold global_ok. destruct Hp as [Hp|Hp].
+    + unfold kspecial in Hp. cbn [fst snd is_empty andb] in Hp. rewrite Hp. rewrite orb_true_r. reflexivity.
+    + rewrite (Hn v Hp). cbn [negb]. apply orb_true_r.
+Qed.
+
+Lemma quiet_wf_step s cur st :
+  inv P (st_vars s) -> nofunc P (st_vars s) -> quiet P s cur st -> wf_step P cur st = true.
+Proof.
+  intros Hi Hn [Hv [_ Hp]]. destruct st as [v t|f nargs|f i|f i v]; cbn [wf_step visit_step] in *.
+  - eapply present_global_ok; eassumption.
+  - apply andb_true_iff. split.
+    + destruct (negb (is_empty cur) && mem f (params_of P cur)) eqn:El; [|reflexivity]. exfalso.
+      rewrite (lookup_spec P _ cur f Hi) in Hv. cbv zeta in Hv.
+      assert (Hk : scope_key P cur f = (cur, f)) by (unfold scope_key; rewrite El; reflexivity).
+      apply andb_true_iff in El. destruct El as [E1 E2]. apply negb_true_iff in E1.
+      rewrite Hk in Hv. unfold kspecial in Hv. cbn [fst snd] in Hv. rewrite E1 in Hv. cbn [andb] in Hv.
+      apply is_empty_false in E1. apply mem_In in E2.
+      pose proof (local_present P _ cur f Hi E1 E2) as Hg. norm.
+      destruct (get (st_vars s) (cur, f)); [|congruence]. apply is_empty_false in E1. rewrite E1 in Hv. discriminate.
+    + destruct (match lookup_var (st_vars s) cur f with Some (_, _, vf) => negb (is_empty vf) | None => false end); [discriminate|].
+      destruct (func_info P f) as [fi|]; [|discriminate].
+      destruct (fi_native fi).
+      * destruct (find_native (p_natives P) f) as [nt|]; [|discriminate].
+        destruct (_ <? nargs); [discriminate | reflexivity].
+      * destruct (_ <? nargs); [discriminate | reflexivity].
+  - unfold arg_ok. destruct (func_info P f) as [fi|]; [|discriminate].
+    destruct (fi_native fi); [reflexivity|]. cbn [orb].
+    destruct (nth_error (fi_params fi) i); [reflexivity | discriminate].
+  - apply andb_true_iff. split; [|eapply present_global_ok; eassumption].
+    unfold arg_ok. destruct (func_info P f) as [fi|]; [|discriminate].
+    destruct (fi_native fi); [reflexivity|]. cbn [orb].
+    destruct (nth_error (fi_params fi) i); [reflexivity | discriminate].
+Qed.
+
+Lemma accepted_wf cut order F :
+  covers P order -> resolve_order cut order P = ROk F -> wf P = true.
+Proof.
+  intros Hcov H. destruct (resolve_order_accepted cut order F H) as [s [[_ [[Hi _] [B1 [B2 B3]]]] Hpq _ Hn]].
+  destruct (pass_quiet_all P Hnodup s order Hcov Hpq) as [Hfq Hmq].
+  unfold wf. unfold resolve_order in H. destruct (first_dup [] (fnames P)); [discriminate|]. cbn [andb].
+  assert (Hb : forall v, get (st_vars s) (gk v) <> None -> negb (is_func P v) = true).
+  { intros v Hv. rewrite (Hn v Hv). reflexivity. }
+  rewrite (Hb n_ARGV) by congruence. rewrite (Hb n_ENVIRON) by congruence. rewrite (Hb n_FIELDS) by congruence.
+  rewrite !andb_true_r. apply andb_true_iff. split; [apply andb_true_iff; split|].
+  - apply forallb_forall. intros fd Hfd. apply negb_true_iff. apply is_empty_false. apply Hnonempty. exact Hfd.
+  - apply forallb_forall. intros fd Hfd. apply forallb_forall. intros st Hst.
+    pose proof (Hfq fd Hfd) as Hall. rewrite Forall_forall in Hall.
+    eapply quiet_wf_step; [exact Hi | exact Hn | apply Hall; exact Hst].
+  - apply forallb_forall. intros st Hst. rewrite Forall_forall in Hmq.
+    eapply quiet_wf_step; [exact Hi | exact Hn | apply Hmq; exact Hst].
+Qed.
+
+
+(* ---------- two accepted runs: same types, same indexes ---------------------------------- *)
+
+Lemma assign_idx_ext types types' fn names : forall sc ar,
+  (forall n, get_or_unknown types (fn, n) = get_or_unknown types' (fn, n)) ->
+  assign_idx types fn names sc ar = assign_idx types' fn names sc ar.
+Proof.
+  induction names as [|n r IH]; intros sc ar He; cbn [assign_idx]; [reflexivity|].
+  rewrite <- (He n). destruct (get_or_unknown types (fn, n)); rewrite IH by exact He; reflexivity.
+Qed.
+
+Lemma In_global_names t x : In x (global_names t) <-> In (gk x) (map fst t).
+Proof.
+  unfold global_names. rewrite in_map_iff. split.
+  - intros [[[fn v] ty0] [Hx Hin]]. apply filter_In in Hin. destruct Hin as [Hin He]. cbn [fst snd] in *.
+    apply is_empty_nil in He. subst. apply in_map_iff. exists (gk x, ty0). split; [reflexivity | exact Hin].
+  - intros Hin. apply in_map_iff in Hin. destruct Hin as [[k ty0] [Hk Hin]]. cbn [fst] in Hk. subst k.
+    exists (gk x, ty0). split; [reflexivity|]. apply filter_In. split; [exact Hin | reflexivity].
+Qed.
+
+Lemma NoDup_global_names t : NoDup (map fst t) -> NoDup (global_names t).
+Proof.
+  induction t as [|[[fn v] ty0] t IH]; intros Hnd; [constructor|].
+  cbn [map fst] in Hnd. inversion Hnd as [|k l Hnotin Hnd']; subst.
+  unfold global_names. cbn [filter fst]. destruct (is_empty fn) eqn:E.
+  - cbn [map fst snd]. apply is_empty_nil in E. subst fn. constructor; [|apply IH; exact Hnd'].
+    intros Hc. apply Hnotin. apply In_global_names. exact Hc.
+  - apply IH. exact Hnd'.
+Qed.
+
+Lemma map_fst_defaulted t : map fst (defaulted t) = map fst t.
+Proof. unfold defaulted. rewrite map_map. reflexivity. Qed.
+
+Lemma get_present_keys t k : get t k <> None <-> In k (map fst t).
+Proof.
+  split.
+  - intros H. destruct (in_dec key_dec k (map fst t)) as [Hin|Hin]; [exact Hin|].
+    apply get_None_keys in Hin. contradiction.
+  - intros Hin Hc. apply get_None_keys in Hc. contradiction.
+Qed.
+
+Theorem accepted_final_equiv cut cut' order order' F F' :
+  covers P order -> covers P order' ->
+  resolve_order cut order P = ROk F -> resolve_order cut' order' P = ROk F' ->
+  final_equiv F F'.
+Proof.
+  intros Hcov Hcov' H H'.
+  pose proof (types_correspond P P (fun k => k) (fun k => k) (fun _ => eq_refl) (fun _ => eq_refl)
+                (fun rho => iff_refl _) cut cut' order order' F F' Hnonempty Hnonempty Hcov Hcov' H H') as Hrho.
+  destruct (resolve_order_accepted cut order F H) as [s Hacc].
+  destruct (resolve_order_accepted cut' order' F' H') as [s' Hacc'].
+  pose proof (accepted_domain order s F Hcov Hacc) as Hdom.
+  pose proof (accepted_domain order' s' F' Hcov' Hacc') as Hdom'.
+  destruct Hacc as [[-> _] _ [Hnd _] _]. destruct Hacc' as [[-> _] _ [Hnd' _] _].
+  set (t := st_vars s) in *. set (t' := st_vars s') in *.
+  assert (Hget : forall k, get (defaulted t) k = get (defaulted t') k).
+  { intros k. specialize (Hrho k). rewrite !fin_types_finalize in Hrho. fold t t' in Hrho.
+    unfold rho_of in Hrho. rewrite !get_defaulted in *.
+    destruct (get t k) as [a|] eqn:G; destruct (get t' k) as [a'|] eqn:G'; cbn [option_map] in *.
+    - destruct a, a'; cbn [default_ty] in *; congruence.
+    - exfalso. assert (Hk : get t k <> None) by congruence. apply Hdom, Hdom' in Hk. contradiction.
+    - exfalso. assert (Hk : get t' k <> None) by congruence. apply Hdom', Hdom in Hk. contradiction.
+    - reflexivity. }
+  assert (Hgu : forall fn n, get_or_unknown (defaulted t) (fn, n) = get_or_unknown (defaulted t') (fn, n)).
+  { intros fn n. unfold get_or_unknown. rewrite Hget. reflexivity. }
+  split; [exact Hget|]. split.
+  - change (fin_gidx (finalize P s)) with (assign_idx (defaulted t) [] (sort_names (global_names (defaulted t))) 0 0).
+    change (fin_gidx (finalize P s')) with (assign_idx (defaulted t') [] (sort_names (global_names (defaulted t'))) 0 0).
+    assert (Hperm : Permutation (global_names (defaulted t)) (global_names (defaulted t'))).
+    { apply NoDup_Permutation.
+      - apply NoDup_global_names. rewrite map_fst_defaulted. exact Hnd.
+      - apply NoDup_global_names. rewrite map_fst_defaulted. exact Hnd'.
+      - intros x. rewrite !In_global_names, !map_fst_defaulted, <- !get_present_keys.
+        rewrite Hdom, Hdom'. reflexivity. }
+    rewrite (sort_names_canonical _ _ Hperm). apply assign_idx_ext. intros n. apply Hgu.
+  - change (fin_lidx (finalize P s)) with (map (fun fd => (f_name fd, assign_idx (defaulted t) (f_name fd) (f_params fd) 0 0)) (p_funcs P)).
+    change (fin_lidx (finalize P s')) with (map (fun fd => (f_name fd, assign_idx (defaulted t') (f_name fd) (f_params fd) 0 0)) (p_funcs P)).
+    apply map_ext. intros fd. f_equal. apply assign_idx_ext. intros n. apply Hgu.
+Qed.
+
+
 End Dom.
